@@ -31,6 +31,10 @@ def record(col, ev):
     classes = []
     if raised:
         classes += ['raised', f'{m.kind}:raised:{obs.exc_type}']
+    else:
+        classes.append('did-not-raise')
+    # input-shape classes (independent of how the tree under test reacts)
+    if True:
         if m.kind in ('ItemMoveMultiple', 'EAStoryMove', 'EAItemMove') and len(m.sources) >= 2:
             pool = [s for s, _ in ev.state] if m.kind == 'EAStoryMove' else \
                 (dict(ev.state).get(ex.addressed, []) if ex.addressed else None)
@@ -46,8 +50,6 @@ def record(col, ev):
             (ta, a), (tb, b) = m.sources
             if ta == 'id' and a in pool and (tb != 'id' or b not in pool):
                 classes.append(f'{m.kind}:second-operand-unresolved')
-    else:
-        classes.append('did-not-raise')
     col.record(ev.case, raised, classes, judge(ev), key=drive.ev_key(ev))
 
 
